@@ -563,6 +563,10 @@ let run_poly (w : string list) : string =
     (match M.first_root (nat_of_int 44) c zero one with
      | M.NoRoot -> "none"
      | M.Maybe (a, b) -> pr "in:%s:%s:%d" (string_of_q a) (string_of_q b) (if M.sign_change c a b then 1 else 0))
+  | ["solve32"; cs; y] ->
+    (match M.solve32 (qs_of_hexcsv cs) (q_of_hex y) with
+     | None -> "cubic"
+     | Some rs -> pr "roots32=%d%s" (List.length rs) (String.concat "" (List.map (fun r -> ":" ^ string_of_q r) rs)))
   | ["touchend"; cs] ->
     (match qs_of_hexcsv cs with
      | [b; a] ->
